@@ -20,6 +20,10 @@
 //! compact   t=<nat> m=<0|1>            compact_files, target_rows_per_fragment = t, materialize_deletions = m (threshold 0);
 //!                                      publishes no version (empty plan) or two (fragment-id reservation + rewrite)
 //! deltas                               for every b < e <= latest: checkout e, delta(b, e) inserted / updated row-id sets
+//! open      a|b                        keep a handle at the current latest version under that name (`ok open v=<version>`)
+//! @a|@b append f=<nat> <rows>          WriteMode::Append through that (possibly stale) handle: the transaction has the handle's
+//!                                      read version and is rebased onto the latest version (`err no_handle`; an Overwrite
+//!                                      committed after the handle's version makes it `err conflict_incompatible`)
 //! ```
 //!
 //! Output of a mutating op:
@@ -108,6 +112,10 @@ enum Op {
     Upsert(Vec<Row>),
     Compact { t: usize, m: bool },
     Deltas,
+    /// remember a handle at the current latest version under a name (`a` / `b`)
+    Open(String),
+    /// append through a remembered (possibly stale) handle: lance rebases the transaction onto the latest version
+    AppendVia { name: String, f: usize, rows: Vec<Row> },
 }
 
 fn show_op(op: &Op) -> String {
@@ -120,6 +128,8 @@ fn show_op(op: &Op) -> String {
         Op::Upsert(rows) => format!("upsert {}", show_rows(rows)),
         Op::Compact { t, m } => format!("compact t={t} m={}", *m as u8),
         Op::Deltas => "deltas".into(),
+        Op::Open(n) => format!("open {n}"),
+        Op::AppendVia { name, f, rows } => format!("@{name} append f={f} {}", show_rows(rows)),
     }
 }
 
@@ -133,6 +143,8 @@ fn op_name(op: &Op) -> &'static str {
         Op::Upsert(_) => "upsert",
         Op::Compact { .. } => "compact",
         Op::Deltas => "deltas",
+        Op::Open(_) => "open",
+        Op::AppendVia { .. } => "append_via",
     }
 }
 
@@ -209,6 +221,12 @@ fn parse_op(line: &str) -> Option<Op> {
             Some(Op::Compact { t, m })
         }
         ["deltas"] => Some(Op::Deltas),
+        ["open", n] if *n == "a" || *n == "b" => Some(Op::Open(n.to_string())),
+        [tag, "append", f, rows] if *tag == "@a" || *tag == "@b" => Some(Op::AppendVia {
+            name: tag[1..].to_string(),
+            f: parse_nat(f.strip_prefix("f=")?)? as usize,
+            rows: rows_same_width(rows)?,
+        }),
         _ => None,
     }
 }
@@ -473,7 +491,28 @@ impl Prop for C17 {
         }
         let n0 = 1 + GenTable::n_rows(rng);
         ops.push(Op::Create { f: Self::gen_f(rng), k, rows: t.fresh_rows(rng, n0, false) });
+        // two thirds of the cases keep a handle from early on and append through it later (rebased commits)
+        let stale = idx % 3 != 1;
+        let mut opened = false;
         while ops.len() < len {
+            if stale && !opened && (ops.len() >= 2 || rng.chance(1, 2)) {
+                ops.push(Op::Open("a".into()));
+                opened = true;
+                if rng.chance(1, 4) {
+                    ops.push(Op::Open("b".into()));
+                }
+                continue;
+            }
+            if opened && rng.chance(1, 4) {
+                let n = 1 + rng.usize(3);
+                let rows = t.fresh_rows(rng, n, false);
+                let name = if rng.chance(1, 6) { "b" } else { "a" };
+                ops.push(Op::AppendVia { name: name.into(), f: Self::gen_f(rng), rows });
+                if rng.chance(1, 8) {
+                    ops.push(Op::Open("a".into()));
+                }
+                continue;
+            }
             let op = match rng.below(100) {
                 0..=21 => {
                     let n = GenTable::n_rows(rng);
@@ -575,6 +614,8 @@ impl Prop for C17 {
         let mut have = false;
         // a handle kept open for the whole case: the in-memory object store lives only while some handle does
         let mut anchor: Option<Dataset> = None;
+        // handles remembered by `open`, each with its own session; they are never advanced
+        let mut handles: BTreeMap<String, Dataset> = BTreeMap::new();
         // ---- oracle state
         // what the harness believes the table holds: rid -> (cells, truth created, truth updated)
         let mut truth: BTreeMap<u64, (Row, u64, u64)> = BTreeMap::new();
@@ -622,7 +663,10 @@ impl Prop for C17 {
             let k = prev.as_ref().map(|p| p.k).unwrap_or(2);
             // ---- interpreter-level rejections
             let reject: Option<&'static str> = match &op {
-                Op::Append { rows, .. } | Op::Overwrite { rows, .. } if rows.iter().any(|r| r.len() != k) => Some("width"),
+                Op::AppendVia { name, .. } if !handles.contains_key(name) => Some("no_handle"),
+                Op::Append { rows, .. } | Op::Overwrite { rows, .. } | Op::AppendVia { rows, .. } if rows.iter().any(|r| r.len() != k) => {
+                    Some("width")
+                }
                 Op::Upsert(rows) => {
                     let w = rows[0].len();
                     let keys: Vec<Cell> = rows.iter().map(|r| r[0]).collect();
@@ -646,6 +690,13 @@ impl Prop for C17 {
             if let Some(kind) = reject {
                 res.outputs.push(format!("err {kind}"));
                 res.tags.push(format!("err:{kind}"));
+                continue;
+            }
+            // ---- open: remember a handle at the latest version
+            if let Op::Open(name) = &op {
+                let d = cur.clone().unwrap();
+                res.outputs.push(format!("ok open v={}", d.version().version));
+                handles.insert(name.clone(), d);
                 continue;
             }
             // ---- deltas
@@ -783,7 +834,10 @@ impl Prop for C17 {
                     kit.block_on(compact_files(&mut d, opts, None)).map_err(KitError::from)?;
                     Ok(d)
                 }
-                Op::Deltas => unreachable!(),
+                Op::AppendVia { name, f, rows } => {
+                    kit.write(Ok(handles.get(name).unwrap()), Mode::Append, &SchemaSpec::ints(k), &[rows.clone()], &knobs(*f))
+                }
+                Op::Deltas | Op::Open(_) => unreachable!(),
             }))
             .unwrap_or_else(|e| {
                 let msg = e
@@ -852,7 +906,7 @@ impl Prop for C17 {
             let mut update_arm = false;
             match &op {
                 Op::Create { rows, .. } | Op::Overwrite { rows, .. } => fresh_cells = rows.clone(),
-                Op::Append { rows, .. } => {
+                Op::Append { rows, .. } | Op::AppendVia { rows, .. } => {
                     want = truth.clone();
                     fresh_cells = rows.clone();
                 }
@@ -898,7 +952,7 @@ impl Prop for C17 {
                     }
                 }
                 Op::Compact { .. } => want = truth.clone(),
-                Op::Deltas => unreachable!(),
+                Op::Deltas | Op::Open(_) => unreachable!(),
             }
             // split the scan into surviving and fresh ids
             let mut got_fresh: Vec<(u64, Row)> = vec![];
@@ -1004,6 +1058,10 @@ impl Prop for C17 {
             if update_arm {
                 n_update_arm += 1;
             }
+            if let (Op::AppendVia { name, .. }, Some(p)) = (&op, &prev) {
+                let behind = handles.get(name).map(|h| p.version.saturating_sub(h.version().version)).unwrap_or(0);
+                res.tags.push(format!("stale_append:behind_{}", behind.min(3)));
+            }
             if matches!(op, Op::Compact { .. }) && !noop {
                 n_compactions += 1;
             }
@@ -1043,7 +1101,7 @@ impl Prop for C17 {
         "random histories of 3-9 ops (+ a final `deltas`) on one memory:// dataset with stable row ids, 2 Int64 columns (3 for a third \
          of the cases, which also upsert with a partial source schema): create then append 22% / update-where 18% / merge_insert \
          upsert 20% (3 in 5 keys exist, at most one new key) / delete 12% / compact_files 16% (target 2-8 or 1000, materialize deletions 3 in 4) / \
-         overwrite 4% / deltas 4%; max_rows_per_file 1-6 or 1000, 0-10 rows per write, unique keys (duplicates in the malformed \
+         overwrite 4% / deltas 4%; two thirds of the cases `open` a handle early and append through it later (a quarter of the following ops; the transaction is rebased over the commits made since); max_rows_per_file 1-6 or 1000, 0-10 rows per write, unique keys (duplicates in the malformed \
          stream), 4% NULL keys, 8% NULL values; 15% malformed (ops before create, f=0, t=0, wrong width, create twice, broken \
          syntax, duplicate upsert keys). Every step and every observation runs with fresh session caches. Non-trivial = at least \
          one update / upsert on a table that had >= 2 fragments and >= 3 versions."
